@@ -1,0 +1,20 @@
+//go:build verif
+
+package pushover
+
+// Contracts for govc (contract-based deductive verification). Comment-only file.
+
+// C20: verdicts of the send: a transport failure is recoverable; with a response the status decides through
+// Retrier.Check - a refused response fails the delivery with the retrier's recoverable flag, an accepted one succeeds.
+//@ func (*Notifier).Notify
+//@   props C20
+//@   nosafe
+//@   abstract
+//@   after call notify.RedactURL assume (res0 != nil) == (arg0 != nil)
+//@   after call notify.NewErrorWithReason assume res0 != nil
+//@   after call fmt.Errorf assume res0 != nil
+//@   ensures [a-transport-failure-is-recoverable] called("notify.PostText") && ret1("notify.PostText") != nil ==> result0 && result1 != nil && !called("Retrier).Check")
+//@   ensures [a-response-is-judged-by-its-status] called("notify.PostText") && ret1("notify.PostText") == nil ==> called("Retrier).Check")
+//@   ensures [a-refused-response-fails-with-the-retrier_s-verdict] called("Retrier).Check") && ret1("Retrier).Check") != nil ==> result1 != nil && result0 == ret("Retrier).Check")
+//@   ensures [an-accepted-response-is-success] called("Retrier).Check") && ret1("Retrier).Check") == nil ==> result1 == nil
+//@   noeffect notify.PostText Retrier).Check notify.RedactURL notify.NewErrorWithReason notify.GetFailureReasonFromStatusCode notify.Drain
